@@ -89,6 +89,40 @@ def build_pool(chk, quick):
                                                    info.decrypted_data[:cut] + b'\x05\x00\x00'))
     pool.append(p)
     failing.append(p)
+    # noisy parses: hundreds of failing packets of every addressed kind (lenient mode skips them all, strict stops at the first);
+    # whatever bookkeeping the player does about failures must not leak into a later parse
+    from . import C12
+    from ..gen import battle as gbattle, history as ghistory
+    for g, v in chosen[:2]:
+        b, exp, err = battlecheck.make_battle(g, v, chk.seed + 1, rich=True)
+        if b is None:
+            continue
+        packets = list(b.packets)
+        for kind in ('unknown-prop', 'unknown-method', 'unknown-nested', 'unknown-position', 'prop-index', 'method-index', 'create-bad-type',
+                     'short-packet'):
+            for _ in range(rng.randint(60, 130)):
+                f = C12.make_fault(rng, b, kind, set())
+                if f is not None:
+                    packets.insert(rng.randint(min(4, len(packets)), len(packets)), (f[0], f[1], {'kind': 'fault', 'time': 0}))
+        ext = {'wows': 'wowsreplay', 'wot': 'wotreplay', 'wowp': 'wowpreplay'}[b.game_name]
+        p = os.path.join(d, 'noisy-%s-%s.%s' % (g, v, ext))
+        open(p, 'wb').write(container.write_container(ext, json.dumps(gbattle.version_string(b.game_name, b.version), ensure_ascii=False).encode('utf-8'),
+                                                       [], ghistory.stream_of(packets)))
+        pool.append(p)
+        failing.append(p)
+    # a real recording labelled as another bundled version: most of its method calls and updates no longer decode
+    wows_versions = sorted(v for g, v in versions if g == 'wows')
+    if src.endswith('.wowsreplay'):
+        eng = dict(info.engine_data)
+        cur = '_'.join(str(eng.get('clientVersionFromXml', '')).replace(' ', '').split(',')[:3])
+        others = [v for v in wows_versions if v != cur and v.count('_') == 2]
+        if others:
+            tgt = others[(wows_versions.index(cur) + 1) % len(others)] if cur in wows_versions else rng.choice(others)
+            eng['clientVersionFromXml'] = ','.join(tgt.split('_')) + ',0'
+            p = os.path.join(d, 'relabelled-%s.wowsreplay' % tgt)
+            open(p, 'wb').write(container.write_container('wowsreplay', json.dumps(eng, ensure_ascii=False).encode('utf-8'), [], info.decrypted_data))
+            pool.append(p)
+            failing.append(p)
     # build-specific siblings of one release (different definitions and controllers under one 3-component name)
     siblings = []
     for g, v in versions:
